@@ -11,6 +11,7 @@ from fgutils.rdkit import graph_to_smiles
 from props.c09 import rand_valid_mol, edit_bonds, make_smiles_case
 
 ID = "C10"
+REPEAT_PROBE = True   # engine: repeat 1 call in 5 after editing its first result in place (purity / no shared state)
 PROPS = "Props/C10.v"
 MODEL_FILES = ["Model/Its.v", "Spec/ItsSpec.v", "Spec/ItsCheck.v"]
 IMPORTS = "From FGV Require Import Model.Aam Model.Its Spec.ItsSpec Spec.ItsCheck."
